@@ -19,7 +19,11 @@ Day == 86400
 Far == 200000
 Bounds == {"cNB", "cNOOA", "sNOOA", "sNB", "sess"}             \* optional bounds
 Focus  == Bounds \cup {"issueLow", "issueHigh", "cOrder", "sOrder"}
-Ds == {-Far, -2, -1, 0, 1, 2, Far}                            \* distance from the edge, in seconds
+\* distinguished instants, as distances from the harness clock (1700000000): the Unix epoch itself -- the value a
+\* "no time" test mistakes for absence -- and 2^31 seconds after it
+EpochD == -1700000000
+Y2038D == 447483648
+Ds == {-Far, -2, -1, 0, 1, 2, Far, EpochD, Y2038D}            \* distance from the edge, in seconds
 Ks == {0, 1, 2}                                               \* additional multiples of the allowance
 
 \* conf2: a second bearer confirmation, comfortably valid, before or after the one the scenario varies
@@ -54,6 +58,8 @@ WellFormed(s) ==
     /\ (s.focus = "sOrder" => {"sNB", "sNOOA"} \subseteq s.present /\ s.slack >= 60 /\ s.d \in -2..2 /\ s.k = 0)
     /\ (s.k > 0 => s.slack > 0 /\ s.d # Far /\ s.d # -Far)
     /\ (s.focus \in {"issueLow", "issueHigh"} => s.d # -Far)
+    /\ (s.d \in {EpochD, Y2038D} => /\ s.focus \in {"cNOOA", "sNOOA", "sess"} /\ s.slack = 0 /\ s.k = 0 /\ s.spelling = "Z"
+                                    /\ s.conf2 = "none" /\ s.stmt2 = "none" /\ s.tz = "UTC")
     /\ (s.conf2 # "none" => s.focus \in {"sNOOA", "sNB", "sOrder"} /\ s.k = 0 /\ s.spelling = "Z")
     /\ (s.spelling \in {"offPlus", "offMinus"} => s.k = 0 /\ s.slack \in {0, 60})
     /\ (s.tz # "UTC" => s.conf2 = "none" /\ s.stmt2 = "none" /\ s.k = 0 /\ s.spelling = "Z" /\ s.slack \in {0, 60} /\ s.d \in {-2, 2, -Far, Far})
